@@ -121,3 +121,12 @@ def witness_for(ob, devs, run_oracle):
 
 ENGINE_B_FUNCTIONS = [(FM.F, '%s.%s' % (c, m)) for c in sorted(FM.FORMS) + ['_polynomial'] for m in ('__call__', 'deriv', 'deriv2')]
 ENGINE_B_FUNCTIONS += [(F_INIT, 'plus'), (F_INIT, 'product'), (F_INIT, 'pow'), (F_MOD, 'trans')]
+
+MODULE_MUTANTS = [
+    (F_INIT, "2.0*deriv_a(r)*deriv_b(r)", "1.0*deriv_a(r)*deriv_b(r)", 'product.deriv2'),
+    (FM.F, "42.0*C/r**8", "30.0*C/r**8", '_buck.deriv2'),
+    (F_MOD, "return potential_func.deriv(r+trans_value)", "return potential_func.deriv(r)", 'trans.deriv'),
+    (FM.F, "v = [float(i) * r**float(i-1) * c for (i,c) in enumerate(coefs)][1:]", "v = [float(i) * r**float(i-1) * c for (i,c) in enumerate(coefs)][2:]", '_polynomial.deriv'),
+    (FM.F, "0.0080015380063920005238*C_10", "0.0080015380163920005238*C_10", '_tang_toennies.deriv'),
+    (F_INIT, "deriv_b = gradient(b)\n    def deriv(r):\n      return deriv_a(r) + deriv_b(r)", "deriv_b = gradient(a)\n    def deriv(r):\n      return deriv_a(r) + deriv_b(r)", 'plus'),
+]
